@@ -221,7 +221,7 @@ class AgentEnv(object):
                                  layout['cores_per_node'],
             'gpus'             : (layout['nodes'] + n_agents + n_svc) *
                                  layout.get('gpus_per_node', 0),
-            'backup_nodes'     : 0,
+            'backup_nodes'     : 0 if layout.get('dropped_node') is None else 1,
             'cores_per_node'   : layout['cores_per_node'],
             'gpus_per_node'    : layout.get('gpus_per_node', 0),
             'lfs_size_per_node': layout.get('lfs', 0),
@@ -262,8 +262,28 @@ class AgentEnv(object):
 
         # the first RM instance initialises "from scratch" (agent_0's role) and
         # leaves rm.<name> in the registry for the components
-        self.rm = rp.agent.ResourceManager.create(rm, cfg, rcfg, NullLog(),
-                                                  NullProf())
+        # layout['dropped_node'] = k: the pilot has one backup node and the k-th
+        # node of the allocation does not answer the RM's accessibility check
+        # (`ssh <node> hostname`): the real _filter_nodes leaves it out, the
+        # node indexes the scheduler sees have a gap
+        drop = layout.get('dropped_node')
+        if drop is not None:
+            calls = [0]
+            class _NodeCheck(object):
+                stdout = stderr = ''
+                def __init__(self, cmd):
+                    self.retcode = 1 if calls[0] == drop else 0
+                    calls[0] += 1
+                def start(self): pass
+                def wait(self, timeout=None): pass
+                def cancel(self): pass
+            saved_proc, m_rmbase.Process = m_rmbase.Process, _NodeCheck
+        try:
+            self.rm = rp.agent.ResourceManager.create(rm, cfg, rcfg, NullLog(),
+                                                      NullProf())
+        finally:
+            if drop is not None:
+                m_rmbase.Process = saved_proc
         self.rm_info = self.rm.info
         boot.reap_env_children()
 
